@@ -12,15 +12,25 @@ For every case (a real handler object, a positional list/tuple or a dict of name
   equal the implementation's, and its SPEC bit `bindable` must equal the real call's outcome
   (this is what validates the Lean specification against CPython on every run).
 
-Handlers: plain functions, bound methods, `functools.partial` objects (positional and keyword
-pre-binding, partials of bound methods) materialised with `exec` from every well-formed
-parameter list up to the scope size; objects carrying a hand-made `__signature__` for the
-parameter lists no `def` can produce (model's explicit TypeError / AttributeError paths)."""
+Handlers: plain functions, bound methods, `types.MethodType` objects, `functools.partial` objects
+(positional and keyword pre-binding, both mixed in one partial, nested partials, partials of bound
+methods) materialised with `exec` from every well-formed parameter list up to the scope size;
+objects carrying a hand-made `__signature__` for the parameter lists no `def` can produce (model's
+explicit TypeError / AttributeError paths).
+
+HISTORIES: argument checking is a pure function of (handler, arguments) in the property, so the
+answer must not depend on what was checked before.  For every parameter list one function object
+is checked in several binding forms (the plain function, bound to an object with
+`types.MethodType`, fetched from an instance, `partial` of each) one after the other, in both
+orders and repeatedly, inside ONE import of the module; every single answer is judged by the same
+stateless oracle (really calling that very object).  A memo keyed on the underlying function, a
+"last signature" shortcut or any other carried state shows up as a wrong answer at some step."""
 import inspect
 import itertools
 import json
 import os
 import subprocess
+import types
 from functools import partial
 from multiprocessing import Pool
 
@@ -62,6 +72,16 @@ def build(wrap, sig):
         return None, []
     if wrap == 'plain':
         return F.make(sig), []
+    if wrap == 'async':
+        # handlers of a session are usually coroutine functions: same binding rules
+        ns = {}
+        exec('async ' + F.source(sig), ns)
+        return ns['f'], []
+    if wrap == 'callobj':
+        # an instance whose class defines __call__ (inspect reports the bound __call__)
+        ns = {}
+        exec('class K:\n    ' + F.source(sig, '__call__', first=SELF), ns)
+        return ns['K'](), ([] if (sig and sig[0][0] == 0) else [SELF])
     if wrap == 'fake':
         return _Fake(_fake_signature(sig)), []
     if wrap in ('method', 'mpos1'):
@@ -74,15 +94,44 @@ def build(wrap, sig):
         got = _prebind_pos(h, sig, 1)
         return None if got is None else (got[0], pre + got[1])
     f = F.make(sig)
+    if wrap == 'mtype':
+        # types.MethodType(f, obj): the first positional parameter is bound, as for a method
+        got = _prebind_pos(f, sig, 1)
+        return None if got is None else (types.MethodType(f, _Obj()), got[1])
     if wrap.startswith('ppos'):
         return _prebind_pos(f, sig, int(wrap[4:]))
+    if wrap == 'pnest':
+        # partial(partial(f, v), v): nested positional pre-binding
+        got = _prebind_pos(f, sig, 2)
+        return None if got is None else (partial(partial(f, PREVAL), PREVAL), got[1])
+    kinds = {nm: k for k, nm, _ in sig}
     if wrap.startswith('pkw:'):
         name = wrap[4:]
-        kinds = {nm: k for k, nm, _ in sig}
         if kinds.get(name) not in (1, 3):
             return None
         return partial(f, **{name: PREVAL}), []
+    if wrap.startswith('pmix:') or wrap.startswith('pnestmix:') or wrap.startswith('pnestkw:'):
+        # one positional and one keyword pre-binding: in ONE partial / keyword inside and
+        # positional outside / positional inside and keyword outside
+        name = wrap.split(':', 1)[1]
+        got = _prebind_pos(f, sig, 1)
+        if got is None or kinds.get(name) not in (1, 3):
+            return None
+        slots = [p for p in sig if p[0] in (0, 1)]
+        if slots and slots[0][1] == name:
+            return None                 # the same parameter twice: a partial that can never be called
+        if wrap.startswith('pmix:'):
+            h = partial(f, PREVAL, **{name: PREVAL})
+        elif wrap.startswith('pnestmix:'):
+            h = partial(partial(f, **{name: PREVAL}), PREVAL)
+        else:
+            h = partial(partial(f, PREVAL), **{name: PREVAL})
+        return h, got[1]
     raise ValueError(wrap)
+
+
+class _Obj:
+    """what `types.MethodType` binds a function to"""
 
 
 def _prebind_pos(f, sig, k):
@@ -95,14 +144,65 @@ def _prebind_pos(f, sig, k):
 
 
 def wrappers_for(sig):
-    out = ['plain', 'method', 'ppos1', 'ppos2', 'mpos1']
+    out = ['plain', 'method', 'ppos1', 'ppos2', 'mpos1', 'mtype', 'pnest']
+    if len(sig) <= 4:
+        out += ['async', 'callobj']
     first_kw = next((nm for k, nm, _ in sig if k in (1, 3)), None)
     if first_kw is not None:
         out.append('pkw:' + first_kw)
     last_kw = next((nm for k, nm, _ in reversed(sig) if k in (1, 3)), None)
     if last_kw is not None and last_kw != first_kw:
         out.append('pkw:' + last_kw)
+    if last_kw is not None:
+        out += ['pmix:' + last_kw, 'pnestmix:' + last_kw, 'pnestkw:' + last_kw]
     return out
+
+
+# ------------------------------------------------------------------ histories
+FORMS = ('plain', 'bound', 'attr', 'pplain', 'pbound')
+
+
+def history_form(f, sig, form):
+    """one binding form of the function object `f` -> (handler, prebound names) or None"""
+    if form == 'plain':
+        return f, []
+    one = _prebind_pos(f, sig, 1)
+    if one is None:
+        return None
+    if form == 'bound':
+        return types.MethodType(f, _Obj()), one[1]
+    if form == 'attr':
+        # a bound method the usual way: the function is a class attribute, fetched from an instance
+        return type('K', (), {'f': f})().f, one[1]
+    if form == 'pplain':
+        return partial(f, PREVAL), one[1]
+    if form == 'pbound':
+        two = _prebind_pos(f, sig, 2)
+        return None if two is None else (partial(types.MethodType(f, _Obj()), PREVAL), two[1])
+    raise ValueError(form)
+
+
+def history_orders(forms=FORMS):
+    """every ordered pair of distinct forms, alternated twice (x y x y), and all of them in a row
+    forwards and backwards"""
+    out = [(x, y, x, y) for x in forms for y in forms if x != y]
+    out.append(tuple(forms) + tuple(forms))
+    out.append(tuple(reversed(forms)) + tuple(reversed(forms)))
+    return out
+
+
+def history_shapes(eff, pre):
+    """a few calls per step: positional counts around the window, all names, all but the first,
+    all plus a pre-bound one - enough to tell an answer computed for another binding form"""
+    npos = sum(1 for k, _, _ in eff if k in (0, 1))
+    shapes = [('T' if c % 2 else 'P', c) for c in range(max(0, npos - 1), npos + 2)]
+    names = [nm for k, nm, _ in eff if k in (1, 3)]
+    shapes.append(('K', tuple(names)))
+    if names:
+        shapes.append(('K', tuple(names[1:])))
+    if pre:
+        shapes.append(('K', tuple(names) + (pre[0],)))
+    return shapes
 
 
 # ------------------------------------------------------------------ one handler, many calls
@@ -150,17 +250,29 @@ def observe_impl(jsonrpc, handler, args):
     except Exception as e:                       # noqa: BLE001 - any escape is an observation
         return 'X' + type(e).__name__, None
     try:
-        return 'A+', inv()
+        return 'A+', _finish(inv())
     except TypeError:
         return 'A-', None
+
+
+def _finish(value):
+    """a coroutine function returns a coroutine: run it (the bodies never await) to get the value"""
+    if inspect.iscoroutine(value):
+        try:
+            value.send(None)
+        except StopIteration as e:
+            return e.value
+        finally:
+            value.close()
+    return value
 
 
 def really_call(handler, args):
     """-> (binds?, result)"""
     try:
         if isinstance(args, dict):
-            return True, handler(**args)
-        return True, handler(*args)
+            return True, _finish(handler(**args))
+        return True, _finish(handler(*args))
     except TypeError:
         return False, None
 
@@ -252,15 +364,7 @@ def eval_handlers(repo, driver, items):
     jsonrpc = fresh_import(repo, 'aiorpcx.jsonrpc')
     st = new_stats()
     lines, recs = [], []
-    for wrap, sig, shapes in items:
-        try:
-            got = build(wrap, sig)
-        except SyntaxError:
-            got = None
-        if got is None:
-            _count(st, 'wrapper_not_applicable')
-            continue
-        handler, pre = got
+    def one_handler(wrap, sig, handler, pre, shapes, mkcase):
         if handler is None:
             eff, signature = None, None
         else:
@@ -270,10 +374,12 @@ def eval_handlers(repo, driver, items):
                 # inspect cannot reduce this wrapper (a partial that pre-binds by keyword a name
                 # that is positional-only in the function): no signature, outside the property
                 _count(st, 'inspect_signature_unavailable')
-                continue
+                return
             eff = F.sig_of(handler)
         if shapes is None:
             shapes = call_shapes(eff or [], pre)
+        elif shapes == 'history':
+            shapes = history_shapes(eff or [], pre)
         num = Numbering()
         hl = handler_line(eff, pre, num)
         for shape in shapes:
@@ -286,12 +392,38 @@ def eval_handlers(repo, driver, items):
             lines.append(hl + ' ' + args_line(args, num))
             recs.append((wrap, sig, shape, eff, pre, verdict, result, binds, ref,
                          None if signature is None or wrap == 'fake'
-                         else bind_check(signature, args)))
+                         else bind_check(signature, args), mkcase(shape)))
+
+    for wrap, sig, shapes in items:
+        if wrap == '@history':
+            # shapes = the order of binding forms; ONE function object for the whole history
+            order = tuple(shapes)
+            f = F.make(sig)
+            for step, form in enumerate(order):
+                got = history_form(f, [tuple(p) for p in sig], form)
+                if got is None:
+                    _count(st, 'history_form_not_applicable')
+                    continue
+                _count(st, 'history_steps')
+                one_handler('hist:' + form, sig, got[0], got[1], 'history',
+                            lambda shape, step=step: {
+                                'wrap': '@history', 'sig': [list(p) for p in sig], 'order': list(order),
+                                'step': step, 'args': [shape[0], list(shape[1]) if shape[0] == 'K' else shape[1]]})
+            continue
+        try:
+            got = build(wrap, sig)
+        except SyntaxError:
+            got = None
+        if got is None:
+            _count(st, 'wrapper_not_applicable')
+            continue
+        one_handler(wrap, sig, got[0], got[1], shapes,
+                    lambda shape, wrap=wrap, sig=sig: {
+                        'wrap': wrap, 'sig': [list(p) for p in sig],
+                        'args': [shape[0], list(shape[1]) if shape[0] == 'K' else shape[1]]})
     model = _run_driver(driver, lines)
-    for i, (wrap, sig, shape, eff, pre, verdict, result, binds, ref, bnd) in enumerate(recs):
+    for i, (wrap, sig, shape, eff, pre, verdict, result, binds, ref, bnd, case) in enumerate(recs):
         args = make_args(shape)
-        case = {'wrap': wrap, 'sig': [list(p) for p in sig],
-                'args': [shape[0], list(shape[1]) if shape[0] == 'K' else shape[1]]}
         st['evaluations'] += 1
         _count(st, 'wrap:' + wrap.split(':')[0])
         _count(st, 'call:' + ('named' if shape[0] == 'K' else 'positional'))
@@ -343,7 +475,13 @@ def eval_handlers(repo, driver, items):
             got = verdict
             if wrap == 'fake':
                 got = {'A+': 'A', 'A-': 'A', 'XTypeError': 'XT', 'XAttributeError': 'XA'}.get(verdict, verdict)
-            if exp != got:
+            if exp != got and wrap == 'fake':
+                # parameter lists no `def` (and no validated inspect.Signature) can produce are
+                # outside the property's quantifier; the model's explicit TypeError /
+                # AttributeError paths are compared and the differences COUNTED, not judged: a
+                # rewrite of signature_info that keeps every real signature may change them
+                _count(st, 'ill_formed_signature_model_differs')
+            elif exp != got:
                 st['n_dis'] += 1
                 if len(st['disagreements']) < CAP:
                     st['disagreements'].append({'case': case, 'impl': got, 'model': model[i],
@@ -356,7 +494,7 @@ def eval_handlers(repo, driver, items):
                                                 'model': model[i], 'what': 'SPEC bindable vs CPython',
                                                 'effective_signature': _sig_text(eff)})
         if eff and len(eff) >= 2 and verdict != 'R' + str(METHOD_NOT_FOUND):
-            st['nontrivial'].add((wrap, str(sig), str(shape)))
+            st['nontrivial'].add(json.dumps(case, sort_keys=True))
         if len(st['samples']) < 3 and i % 997 == 5:
             st['samples'].append({'case': case, 'impl': verdict,
                                   'model': model[i] if model else None})
@@ -429,10 +567,13 @@ def run_items(ctx, res, items, parallel=False):
 
 # ------------------------------------------------------------------ corpus
 def parse_corpus_line(line):
-    """`<wrap> <sig> <args>`: sig `-` or `k.name.d,...`; args `P<n>` `T<n>` `K-` `K<n1,n2>`"""
+    """`<wrap> <sig> <args>`: sig `-` or `k.name.d,...`; args `P<n>` `T<n>` `K-` `K<n1,n2>`;
+    `@history <sig> <form>,<form>,...`: one function checked in these binding forms in this order"""
     wrap, sg, ar = line.split()
     sig = [] if sg == '-' else [(int(k), nm, d == '1') for k, nm, d in
                                 (x.split('.') for x in sg.split(','))]
+    if wrap == '@history':
+        return wrap, sig, tuple(ar.split(','))
     if ar[0] in 'PT':
         shape = (ar[0], int(ar[1:]))
     else:
@@ -441,6 +582,9 @@ def parse_corpus_line(line):
 
 
 def case_to_item(case):
+    if case['wrap'] == '@history':
+        # the whole history is replayed (the failing step depends on the steps before it)
+        return '@history', [tuple(p) for p in case['sig']], tuple(case['order'])
     a = case['args']
     shape = (a[0], tuple(a[1])) if a[0] == 'K' else (a[0], int(a[1]))
     return case['wrap'], [tuple(p) for p in case['sig']], [shape]
@@ -547,12 +691,16 @@ def out_of_scope_probes(ctx, res):
 
 RULE = ('case = (wrapper, underlying parameter list, call shape); handlers are real objects '
         '(exec); exhaustive over every well-formed parameter list up to the stated size under '
-        'each wrapper (plain function, bound method, partial with 1/2 positional, partial of a '
-        'bound method, partial with a keyword) x positional counts 0..n+2 (list and tuple) x '
-        'every subset of {parameter names, names the wrapper pre-bound, an unknown name}; plus '
+        'each wrapper (plain function, bound method, types.MethodType, partial with 1/2 positional, '
+        'nested partial, partial of a bound method, partial with a keyword, partial mixing a '
+        'positional and a keyword pre-binding in one / nested either way) x positional counts '
+        '0..n+2 (list and tuple) x every subset of {parameter names, names the wrapper pre-bound, an '
+        'unknown name}; HISTORIES: one function object per parameter list checked as plain function / '
+        'MethodType / instance attribute / partial of each, every ordered pair alternated twice and '
+        'all forms in a row both ways, each step judged by really calling that object; plus '
         'ill-formed parameter lists through __signature__ and seeded random larger signatures '
         'with mostly-valid calls; non-trivial = effective signature has >= 2 parameters and a '
-        'handler exists; distinct = distinct (wrapper, underlying parameter list, call shape)')
+        'handler exists; distinct = distinct (wrapper or history step, parameter list, call shape)')
 
 
 def known_keys(ctx):
@@ -572,7 +720,24 @@ def unlisted_failure(ctx, res):
                for k, n in res['histogram'].items())
 
 
+def need_model(ctx):
+    """not having the driver is toolchain trouble (exit 2), never a quiet pass without the model"""
+    if not ctx.have_model and not os.environ.get('VERIF_ALLOW_NO_MODEL'):
+        from lib.vcheck import MachineryError
+        raise MachineryError('the model driver drv_c19 could not be built (lake build drv_c19)')
+
+
+def history_items(maxn):
+    out = []
+    for n in range(1, maxn + 1):
+        for sig in F.all_signatures(n, NAMES):
+            if sig[0][0] in (0, 1) or any(k == 2 for k, _, _ in sig):
+                out += [('@history', sig, order) for order in history_orders()]
+    return out
+
+
 def run(ctx):
+    need_model(ctx)
     res = Results()
     rng = ctx.rng
     # (a) corpus: minimised past failures (F16 and the pre-bound-name finding) first
@@ -580,6 +745,10 @@ def run(ctx):
     run_items(ctx, res, items)
     res['scopes']['corpus'] = len(items)
     thorough = ctx.tier == 'thorough'
+    # lib/vcheck.py re-runs a drifted quick tier at depth only when the first pass found nothing,
+    # and the recorded known finding always makes this harness "find something": look deeper in
+    # the first pass already when the source drifted or an obligation broke
+    deep = ctx.deep or bool(ctx.deep_reasons)
     # no handler at all (list, tuple, dict)
     run_items(ctx, res, [('none', [], [('P', 0), ('T', 2), ('K', ()), ('K', ('a',))])])
     # (b) exhaustive small scopes, smallest first; stop growing once something failed that is
@@ -596,15 +765,22 @@ def run(ctx):
         run_items(ctx, res, items, parallel=True)
         done = n
     extra = {}
-    if ctx.deep and not unlisted_failure(ctx, res):
+    if deep and not unlisted_failure(ctx, res):
         sigs = list(F.all_signatures(maxn + 1, NAMES))
         extra = {'parameters': maxn + 1, 'signatures': len(sigs), 'wrappers': ['plain', 'method']}
         run_items(ctx, res, [(w, s, None) for s in sigs for w in ('plain', 'method')],
                   parallel=True)
     res['scopes']['exhaustive'] = {'max_parameters': done, 'signatures': nsig,
-                                   'wrappers': ['plain', 'method', 'ppos1', 'ppos2', 'mpos1',
-                                                'pkw:first', 'pkw:last'],
+                                   'wrappers': ['plain', 'async (<= 4)', 'callobj (<= 4)', 'method', 'mtype', 'ppos1', 'ppos2', 'pnest',
+                                                'mpos1', 'pkw:first', 'pkw:last', 'pmix:last',
+                                                'pnestmix:last', 'pnestkw:last'],
                                    'one_size_more_plain_and_method_only': extra}
+    # (b') histories: the same function object in several binding forms, one after the other
+    hmax = 2 if unlisted_failure(ctx, res) else (4 if deep else 3)
+    hist = history_items(hmax)
+    run_items(ctx, res, hist, parallel=True)
+    res['scopes']['histories'] = {'max_parameters': hmax, 'histories': len(hist),
+                                  'forms': list(FORMS), 'orders_per_function': len(history_orders())}
     # handlers of the repo's own test (tests/test_jsonrpc.py::test_handler_invocation)
     ns = {}
     exec(REPO_TEST_HANDLERS, ns)
@@ -615,23 +791,24 @@ def run(ctx):
     out_of_scope_probes(ctx, res)
     failed = unlisted_failure(ctx, res)
     # (c) ill-formed parameter lists: the model's TypeError / AttributeError paths
-    bad = ill_formed_items(2 if failed else 4 if ctx.deep else 3)
-    run_items(ctx, res, bad, parallel=ctx.deep)
+    bad = ill_formed_items(2 if failed else 4 if deep else 3)
+    run_items(ctx, res, bad, parallel=deep)
     res['scopes']['ill_formed_signatures'] = len(bad)
     # (d) seeded random larger signatures, mostly-valid calls + odd names
-    ngen = 300 if failed else 6000 if ctx.deep else 1200
+    ngen = 300 if failed else 6000 if deep else 1200
     gen = []
     while len(gen) < ngen:
         it = random_item(rng)
         if it is not None:
             gen.append(it)
-    run_items(ctx, res, gen, parallel=ctx.deep and not failed)
+    run_items(ctx, res, gen, parallel=deep and not failed)
     res['scopes']['generated_handlers'] = ngen
     res._nontrivial = set(range(res.pop('_nontrivial', 0)))
     return res.finish(RULE, exhaustive=(done == maxn))
 
 
 def replay(ctx, case):
+    need_model(ctx)
     if 'case' in case and isinstance(case['case'], dict):
         case = case['case']
     elif 'wrap' not in case and case.get('disagreements'):
